@@ -119,6 +119,7 @@ Definition is_some {A} (o : option A) : bool := match o with Some _ => true | No
 
 Section Next.
   Variable kb : kbase.
+  Variable bf : nat.       (* fuel handed to the built-ins and to unification (constant during a search) *)
 
   (* One level of each of the three mutually recursive functions, with the recursive calls as
      parameters (open recursion), so that proofs can unfold one level at a time. *)
@@ -127,7 +128,6 @@ Section Next.
     Variable and_loop : subst -> bool -> bool -> option node -> option node ->
                         option (list goal) -> bool -> world -> res step_result.
     Variable call_loop : term -> subst -> bool -> option node -> N -> N -> world -> res step_result.
-    Variable f : nat.     (* fuel handed to the built-ins and to unification *)
 
     Definition next_body (nd : node) (w : world) : res step_result :=
       if node_nobt nd then Ok (nd, None, false, w) else
@@ -135,7 +135,7 @@ Section Next.
       | NBip fn ts ss nobt more =>
           if negb more then Ok (nd, None, false, w)
           else
-            do r <- run_bip f fn ts ss;
+            do r <- run_bip bf fn ts ss;
             Ok (NBip fn ts ss (nobt || br_cut r) false, br_sol r, br_cut r, w_print w (br_out r))
       | NOp ONot ss nobt more head tail optail =>
           if negb more then Ok (nd, None, false, w)
@@ -271,7 +271,7 @@ Section Next.
         do gr <- get_rule kb key idx (next_id w);
         let '(r, ctr) := gr in
         let w1 := w_set_id w ctr in
-        do u <- unify f (r_head r) t ss;
+        do u <- unify bf (r_head r) t ss;
         match u with
         | None => call_loop t ss nobt child (idx + 1) n (w_set_id w1 fallback)
         | Some s =>
@@ -291,7 +291,7 @@ Section Next.
   Fixpoint next (fuel : nat) (nd : node) (w : world) {struct fuel} : res step_result :=
     match fuel with
     | O => OutOfFuel
-    | S f => next_body (next f) (and_loop f) (call_loop f) f nd w
+    | S f => next_body (next f) (and_loop f) (call_loop f) nd w
     end
   with and_loop (fuel : nat) (ss : subst) (nobt more : bool) (head tail : option node)
                 (optail : option (list goal)) (acc : bool) (w : world) {struct fuel}
@@ -304,17 +304,17 @@ Section Next.
                  (idx n : N) (w : world) {struct fuel} : res step_result :=
     match fuel with
     | O => OutOfFuel
-    | S f => call_body (next f) (call_loop f) f t ss nobt child idx n w
+    | S f => call_body (next f) (call_loop f) t ss nobt child idx n w
     end.
 
-  Lemma next_S f nd w : next (S f) nd w = next_body (next f) (and_loop f) (call_loop f) f nd w.
+  Lemma next_S f nd w : next (S f) nd w = next_body (next f) (and_loop f) (call_loop f) nd w.
   Proof. reflexivity. Qed.
   Lemma and_loop_S f ss nobt more head tail optail acc w :
     and_loop (S f) ss nobt more head tail optail acc w =
     and_body (next f) (and_loop f) ss nobt more head tail optail acc w.
   Proof. reflexivity. Qed.
   Lemma call_loop_S f t ss nobt child idx n w :
-    call_loop (S f) t ss nobt child idx n w = call_body (next f) (call_loop f) f t ss nobt child idx n w.
+    call_loop (S f) t ss nobt child idx n w = call_body (next f) (call_loop f) t ss nobt child idx n w.
   Proof. reflexivity. Qed.
 End Next.
 
@@ -353,7 +353,7 @@ Definition node_goal_term (nd : node) : option term :=
    once after the search. *)
 Definition solve (fuel : nat) (kb : kbase) (nd : node) (w : world) : res (node * str * world) :=
   let w0 := w_set_flag w false in
-  do x <- next kb fuel nd w0;
+  do x <- next kb fuel fuel nd w0;
   let '(nd', sol, _, w1) := x in
   let '(stopped, w2) := query_stopped w1 in
   if stopped then Ok (nd', timeout_msg, w2)
@@ -375,7 +375,7 @@ Fixpoint solve_all_loop (fuel : nat) (kb : kbase) (nd : node) (q : term) (acc : 
   match fuel with
   | O => OutOfFuel
   | S f =>
-      do x <- next kb fuel nd w;
+      do x <- next kb fuel fuel nd w;
       let '(nd', sol, _, w1) := x in
       let '(stopped, w2) := query_stopped w1 in
       if stopped then Ok (nd', acc, w2)
